@@ -113,3 +113,38 @@ example :
 
 end Ext
 end ZI.Registry
+
+namespace ZI.Registry
+open ZI.RO
+open Ext
+namespace Ext
+
+/-- `VerifyingAdapterLookup.changed` touches the resolution order, the generation snapshot and the caches of the registry only -/
+theorem verifyingChanged_tables (w : World) (r : Nat) :
+    ((verifyingChanged w r).reg r).provided = (w.reg r).provided ∧
+    ((verifyingChanged w r).reg r).extendors = (w.reg r).extendors ∧
+    ((verifyingChanged w r).reg r).adapters = (w.reg r).adapters := by
+  unfold verifyingChanged verifyingChangedBase
+  simp [reg_setReg_same, clearCaches]
+
+/-- … hence the generation-checking flavour's re-created lookup object builds the same table -/
+theorem relookup_tabOk_verifying (w : World) (r : Nat) (hv : w.verifying = true)
+    (hk : ((w.reg r).provided.map (·.1)).Nodup) (hc : ∀ pc ∈ (w.reg r).provided, pc.2 ≠ 0) :
+    TabOk w.sro w.iro ((relookup w r).reg r).provided ((relookup w r).reg r).extendors := by
+  have key : (relookup w r) = verifyingChanged (w.setReg r ((w.reg r).provided.foldl (fun acc pc => addExtendor w acc pc.1)
+      { w.reg r with extendors := [], cache := [], mcache := [], scache := [], verifyRo := [], verifyGen := [] })) r := by
+    unfold relookup
+    simp only []
+    rw [if_pos (by simpa using hv)]
+  rw [key]
+  obtain ⟨h1, h2, _⟩ := verifyingChanged_tables (w.setReg r ((w.reg r).provided.foldl (fun acc pc => addExtendor w acc pc.1)
+      { w.reg r with extendors := [], cache := [], mcache := [], scache := [], verifyRo := [], verifyGen := [] })) r
+  rw [h1, h2, reg_setReg_same, fold_addExtendor_provided, fold_addExtendor_extendors]
+  have := tabOk_initExt (S := w.sro) (I := w.iro) (w.reg r).provided [] [] (tabOk_empty _ _)
+    (fun pc hpc => ⟨rfl, hc pc hpc⟩) hk
+  have hs : (w.setReg r ((w.reg r).provided.foldl (fun acc pc => addExtendor w acc pc.1)
+      { w.reg r with extendors := [], cache := [], mcache := [], scache := [], verifyRo := [], verifyGen := [] })).sro = w.sro := rfl
+  simpa using this
+
+end Ext
+end ZI.Registry
